@@ -378,6 +378,16 @@ def generate(quick):
             paired.add(n)
             for a in args:
                 tu.add("static_assert(etl::%s_v<%s> == std::%s_v<%s>);" % (n, a, n, a), "%s_v<%s>" % (n, a))
+            # [meta.logical]: the specialisation *derives from* the selected trait (the first falsy / truthy one, else the last),
+            # so members other than a bool `value` come through
+            last = "std::integral_constant<int, 2>"
+            stop = "std::false_type" if n == "conjunction" else "std::true_type"
+            go = "std::true_type" if n == "conjunction" else "std::false_type"
+            for a, sel in ((last, last), ("%s, %s" % (go, last), last),
+                           ("%s, %s, std::rank<int[1][2][3]>" % (go, go), "std::rank<int[1][2][3]>")):
+                tu.add("static_assert(std::is_base_of_v<%s, etl::%s<%s>> && etl::%s<%s>::value == std::%s<%s>::value);" % (sel, n, a, n, a, n, a),
+                       "%s<%s> derives from its last trait" % (n, a))
+            tu.add("static_assert(std::is_base_of_v<%s, etl::%s<%s, %s>>);" % (stop, n, stop, last), "%s<%s, ...> derives from the deciding trait" % (n, stop))
     if "negation" in traits:
         paired.add("negation")
         for a in ("std::true_type", "std::false_type", "etl::true_type", "std::is_void<int>"):
